@@ -141,3 +141,110 @@ LEMMAS = [
      [StrArg("b", length=8, charset=CUSIP_ALPHA)],
      "spec.secid.is_valid_cusip(b + str(spec.secid.cusip_check_digit(b)))"),
 ]
+
+
+# ---------------------------------------------------------------------------------------------- histories (bounded)
+# The contracts above are per call.  A call that FAILS part-way (a character outside the alphabet, a vowel in a SEDOL,
+# an unknown prefix, a wrong length) must leave nothing behind that changes what later calls compute: sequences of
+# refused and well-formed identifiers through all public functions, every well-formed one checked against the spec.
+BAD_CUSIP_CHARS = "- ./_$éa"
+
+
+def _outcome(f, *a):
+    try:
+        return ("ret", f(*a))
+    except Exception as ex:
+        return ("exc", type(ex).__name__)
+
+
+def run_secid_history(it, fn, a):
+    import ofxtools.utils as U
+    from contracts.spec import secid
+    seq = a[0]
+    problems = []
+    for kind, text in seq:
+        if kind == "bad-cusip":
+            o = _outcome(U.validate_cusip, text)
+            if o == ("ret", True):
+                problems.append(f"validate_cusip({text!r}) is True")
+            _outcome(U.cusip_checksum, text[:8]); _outcome(U.cusip2isin, text)
+        elif kind == "bad-sedol":
+            _outcome(U.sedol_checksum, text[:6])
+            if _outcome(U.sedol2isin, text)[0] == "ret":
+                problems.append(f"sedol2isin({text!r}) returned")
+        elif kind == "bad-isin":
+            _outcome(U.isin_checksum, text[:11])
+            if _outcome(U.validate_isin, text) == ("ret", True):
+                problems.append(f"validate_isin({text!r}) is True")
+        elif kind == "cusip":
+            d = str(secid.cusip_check_digit(text))
+            if _outcome(U.cusip_checksum, text) != ("ret", d):
+                problems.append(f"after {seq[:seq.index((kind, text))]!r}: cusip_checksum({text!r}) gives {_outcome(U.cusip_checksum, text)}, algorithm {d}")
+            if _outcome(U.validate_cusip, text + d) != ("ret", True):
+                problems.append(f"validate_cusip({text + d!r}) is not True")
+            wrong = str((int(d) + 3) % 10)
+            if _outcome(U.validate_cusip, text + wrong) != ("ret", False):
+                problems.append(f"validate_cusip({text + wrong!r}) (wrong check digit) is not False")
+            if all(c in ALNUM for c in text):
+                o = _outcome(U.cusip2isin, text + d)
+                if o[0] != "ret" or not secid.is_valid_isin(o[1], secid.ALLKEYS) or o[1][2:11] != text + d:
+                    problems.append(f"cusip2isin({text + d!r}) gives {o}")
+        elif kind == "sedol":
+            d = str(secid.sedol_check_digit(text))
+            if _outcome(U.sedol_checksum, text) != ("ret", d):
+                problems.append(f"sedol_checksum({text!r}) gives {_outcome(U.sedol_checksum, text)}, algorithm {d}")
+            o = _outcome(U.sedol2isin, text + d)
+            if o[0] != "ret" or not secid.is_valid_isin(o[1], secid.ALLKEYS) or o[1][4:11] != text + d:
+                problems.append(f"sedol2isin({text + d!r}) gives {o}")
+        elif kind == "isin":
+            d = str(secid.isin_check_digit(text))
+            if _outcome(U.isin_checksum, text) != ("ret", d):
+                problems.append(f"isin_checksum({text!r}) gives {_outcome(U.isin_checksum, text)}, algorithm {d}")
+            if _outcome(U.validate_isin, text + d) != ("ret", True):
+                problems.append(f"validate_isin({text + d!r}) is not True")
+    return problems
+
+
+def cases_secid_history(tier):
+    import random
+    rng = random.Random(20)
+    out = []
+    goods = [("cusip", "08467010"), ("cusip", "0846701*"), ("cusip", "@8467#1Z"), ("sedol", "B0YBKJ"), ("sedol", "263494"), ("isin", "US084670108"), ("isin", "GB0002634946"[:11])]
+    bads = []
+    for pos in range(8):
+        for ch in BAD_CUSIP_CHARS[:4] if tier != "thorough" else BAD_CUSIP_CHARS:
+            b = "08467010"
+            bads.append(("bad-cusip", b[:pos] + ch + b[pos + 1:] + "8"))
+    bads += [("bad-cusip", "0846701"), ("bad-cusip", "0846701088"), ("bad-cusip", "")]
+    for pos in range(6):
+        bads.append(("bad-sedol", "B0YBKJ"[:pos] + "A" + "B0YBKJ"[pos + 1:] + "7"))
+        bads.append(("bad-sedol", "B0YBKJ"[:pos] + "-" + "B0YBKJ"[pos + 1:] + "7"))
+    bads += [("bad-sedol", "B0YBK"), ("bad-sedol", "B0YBKJ77")]
+    for pos in range(2, 11):
+        bads.append(("bad-isin", "US084670108"[:pos] + "-" + "US084670108"[pos + 1:] + "0"))
+    bads += [("bad-isin", "ZZ0846701080"), ("bad-isin", "US08467010"), ("bad-isin", "us0846701086")]
+    for b in bads:
+        out.append([[b] + goods])
+        out.append([[b, b] + goods[:3]])
+    for _ in range(40 if tier != "thorough" else 400):
+        seq = []
+        for _ in range(rng.randint(2, 6)):
+            if rng.random() < 0.5:
+                seq.append(rng.choice(bads))
+            else:
+                k = rng.choice(["cusip", "sedol", "isin"])
+                seq.append((k, _rs(rng, CUSIP_ALPHA, 8) if k == "cusip" else (_rs(rng, SEDOL_ALPHA, 6) if k == "sedol" else rng.choice(KEYS2) + _rs(rng, ALNUM, 9))))
+        out.append([seq])
+    return out
+
+
+class _Seq(Arg):
+    def __init__(self, name):
+        self.name = name
+
+
+CONTRACTS.append(
+    Contract("ofxtools.utils:validate_cusip", args=[_Seq("seq")], call=run_secid_history,
+             ensures=[("a-refused-identifier-leaves-nothing-behind", "result == []")], cases=cases_secid_history, native_only=True, shards=4,
+             notes="sequences of refused identifiers (foreign character at every position, vowel, unknown prefix, wrong length) and well-formed ones through all six functions; every well-formed one is checked against the published algorithm",
+             props=["C20"]))
